@@ -1061,6 +1061,24 @@ pub fn c09(c: &mut Ctx) {
                 c.count("f32_boundary_cases");
             }
         }
+        // usize / isize routes (64-bit target): must equal the u64 / i64 conversions
+        {
+            let v = wide_values(&mut c.rng, 64) as u64;
+            let ins = [v, 0];
+            c.note("from/usize", &ins, v != 0);
+            match guard(|| (<TwoFloat as FromPrimitive>::from_usize(v as usize).map(w), w(<TwoFloat as From<u64>>::from(v)), <TwoFloat as FromPrimitive>::from_isize(v as i64 as isize).map(w), w(<TwoFloat as From<i64>>::from(v as i64)), <TwoFloat as NumCast>::from(v as usize).map(w), <TwoFloat as NumCast>::from(v as i64 as isize).map(w))) {
+                Err(m) => c.viol("from/usize", "panic", &ins, &[], m),
+                Ok((a, b, cc, d, e, f)) => {
+                    let same = |p: Option<W>, q: W| p.map(|p| hx(p.0) == hx(q.0) && hx(p.1) == hx(q.1)).unwrap_or(false);
+                    if !same(a, b) || !same(e, b) {
+                        c.viol("from/usize", "differs", &ins, &outs(b), "from_usize / NumCast::from(usize) differ from From<u64>".into());
+                    }
+                    if !same(cc, d) || !same(f, d) {
+                        c.viol("from/isize", "differs", &ins, &outs(d), "from_isize / NumCast::from(isize) differ from From<i64>".into());
+                    }
+                }
+            }
+        }
         // float conversions
         let f = f64_any(&mut c.rng);
         let ins = [hx(f)];
